@@ -4,6 +4,7 @@ Structural invariants of the thread-mesh builder (Model/Thread.lean `threadMesh`
 -/
 import ScadVerif.Lemmas.RealInst
 import ScadVerif.Model.Thread
+import ScadVerif.Props.C10
 namespace ScadVerif.ThreadLemmas
 open ScadVerif ScadVerif.Thread
 
@@ -116,5 +117,146 @@ theorem threadMesh_shape (dMin dMaj pitch length : ℝ) (segments : Nat) (li lo 
           (simp only [List.mem_cons, List.not_mem_nil, or_false] at hv; rcases hv with rfl | rfl | rfl <;> omega)
     · simp [h4]
     · simpa using h5
+
+/-! ### radii -/
+/-- x-coordinate of the interpolated profile point stays between the end points' -/
+theorem lerp_x_between (s e : Pt3 ℝ) (n step : Nat) (a b : ℝ) (hs : a ≤ s.x ∧ s.x ≤ b) (he : a ≤ e.x ∧ e.x ≤ b)
+    (hstep : n = 0 ∨ step ≤ n) : a ≤ (lerpSteps s e n step).x ∧ (lerpSteps s e n step).x ≤ b := by
+  have hx : (lerpSteps s e n step).x = s.x + (e.x - s.x) / (n : ℝ) * (step : ℝ) := by
+    simp only [lerpSteps, cast_eq_natCast]
+    rfl
+  rw [hx]
+  by_cases hn : n = 0
+  · subst hn
+    simp; exact hs
+  · have hstep : step ≤ n := by rcases hstep with h | h; exact absurd h hn; exact h
+    have hnpos : (0 : ℝ) < n := by exact_mod_cast Nat.pos_of_ne_zero hn
+    have ht0 : (0 : ℝ) ≤ (step : ℝ) / n := by positivity
+    have ht1 : (step : ℝ) / n ≤ 1 := by rw [div_le_one hnpos]; exact_mod_cast hstep
+    have e1 : s.x + (e.x - s.x) / (n : ℝ) * (step : ℝ) = s.x * (1 - (step : ℝ) / n) + e.x * ((step : ℝ) / n) := by
+      field_simp; ring
+    rw [e1]
+    constructor <;> nlinarith [hs.1, hs.2, he.1, he.2]
+
+theorem lerp_y_zero (s e : Pt3 ℝ) (n step : Nat) (hs : s.y = 0) (he : e.y = 0) : (lerpSteps s e n step).y = 0 := by
+  have hy : (lerpSteps s e n step).y = s.y + (e.y - s.y) / (n : ℝ) * (step : ℝ) := by
+    simp only [lerpSteps, cast_eq_natCast]
+    rfl
+  rw [hy, hs, he]; simp
+
+/-- a ring point keeps the radius |x| of its profile point -/
+theorem ring_radius (c s x : ℝ) (h : c * c + s * s = 1) : (c * x) ^ 2 + (s * x) ^ 2 = x ^ 2 := by
+  have : (c * x) ^ 2 + (s * x) ^ 2 = (c * c + s * s) * x ^ 2 := by ring
+  rw [this, h, one_mul]
+
+
+/-- radius invariant of the thread builder -/
+def RInv (a b : ℝ) (st : St ℝ) : Prop :=
+  (a ≤ st.in1.x ∧ st.in1.x ≤ b) ∧ (a ≤ st.in3.x ∧ st.in3.x ≤ b) ∧
+  (a ≤ st.out1.x ∧ st.out1.x ≤ b) ∧ (a ≤ st.out3.x ∧ st.out3.x ≤ b) ∧
+  ∀ p ∈ st.points, a ^ 2 ≤ p.x ^ 2 + p.y ^ 2 ∧ p.x ^ 2 + p.y ^ 2 ≤ b ^ 2
+
+theorem ring4_radii (a b : ℝ) (ha : 0 ≤ a) (c s z : ℝ) (hcs : c * c + s * s = 1) (p0 p1 p2 p3 : Pt3 ℝ)
+    (h0 : a ≤ p0.x ∧ p0.x ≤ b) (h1 : a ≤ p1.x ∧ p1.x ≤ b) (h2 : a ≤ p2.x ∧ p2.x ≤ b) (h3 : a ≤ p3.x ∧ p3.x ≤ b) :
+    ∀ p ∈ ring4 c s z p0 p1 p2 p3, a ^ 2 ≤ p.x ^ 2 + p.y ^ 2 ∧ p.x ^ 2 + p.y ^ 2 ≤ b ^ 2 := by
+  intro p hp
+  simp only [ring4, List.mem_cons, List.not_mem_nil, or_false] at hp
+  have key : ∀ x : ℝ, a ≤ x → x ≤ b → a ^ 2 ≤ (c * x) ^ 2 + (s * x) ^ 2 ∧ (c * x) ^ 2 + (s * x) ^ 2 ≤ b ^ 2 := by
+    intro x hx1 hx2
+    rw [ring_radius c s x hcs]
+    constructor <;> nlinarith
+  rcases hp with rfl | rfl | rfl | rfl
+  · exact key _ h0.1 h0.2
+  · exact key _ h1.1 h1.2
+  · exact key _ h2.1 h2.2
+  · exact key _ h3.1 h3.2
+
+theorem rinv_step (a b : ℝ) (ha : 0 ≤ a) (st : St ℝ) (hi : RInv a b st) (c sn z : ℝ) (hcs : c * c + sn * sn = 1)
+    (p0 p1 p2 p3 i1 i3 o1 o3 : Pt3 ℝ) (l1 l2 : Nat) (fs : List (List Nat))
+    (h0 : a ≤ p0.x ∧ p0.x ≤ b) (h1 : a ≤ p1.x ∧ p1.x ≤ b) (h2 : a ≤ p2.x ∧ p2.x ≤ b) (h3 : a ≤ p3.x ∧ p3.x ≤ b)
+    (hi1 : a ≤ i1.x ∧ i1.x ≤ b) (hi3 : a ≤ i3.x ∧ i3.x ≤ b) (ho1 : a ≤ o1.x ∧ o1.x ≤ b) (ho3 : a ≤ o3.x ∧ o3.x ≤ b) :
+    RInv a b ⟨l1, l2, i1, i3, o1, o3, st.points ++ ring4 c sn z p0 p1 p2 p3, fs⟩ := by
+  refine ⟨hi1, hi3, ho1, ho3, ?_⟩
+  intro p hp
+  rcases List.mem_append.mp hp with hp | hp
+  · exact hi.2.2.2.2 p hp
+  · exact ring4_radii a b ha c sn z hcs p0 p1 p2 p3 h0 h1 h2 h3 p hp
+
+/-- **every vertex of the thread mesh lies between the minor and the major radius** (for
+0 ≤ d_min ≤ d_maj and a lead-in angle ≥ 0) -/
+theorem threadMesh_radii (dMin dMaj pitch length : ℝ) (segments : Nat) (li lo : ℝ) (left : Bool) (m : Mesh ℝ)
+    (h : threadMesh dMin dMaj pitch length segments li lo left = some m)
+    (h0 : 0 ≤ dMin) (h1 : dMin ≤ dMaj) (hli : 0 ≤ li) :
+    ∀ p ∈ m.points, (dMin / 2) ^ 2 ≤ p.x ^ 2 + p.y ^ 2 ∧ p.x ^ 2 + p.y ^ 2 ≤ (dMaj / 2) ^ 2 := by
+  have e2 : (lit 2 : ℝ) = 2 := by simp
+  have ha : 0 ≤ dMin / 2 := by linarith
+  have hab : dMin / 2 ≤ dMaj / 2 := by linarith
+  unfold threadMesh at h
+  simp only [] at h
+  split at h
+  · simp at h
+  · injection h with h
+    generalize hst : List.foldl _ _ (List.range _) = st at h
+    have hnIn : 2 ≤ HasTrunc.trunc ((cast segments : ℝ) * li / lit 360 + lit 2) := by
+      show 2 ≤ ⌊(cast segments : ℝ) * li / lit 360 + lit 2⌋₊
+      apply Nat.le_floor
+      have : 0 ≤ (cast segments : ℝ) * li / lit 360 := by
+        simp only [cast_eq_natCast]; positivity
+      simp only [cast_eq_natCast] at this ⊢; push_cast; linarith
+    generalize HasTrunc.trunc ((cast segments : ℝ) * li / lit 360 + lit 2) = nIn at *
+    generalize HasTrunc.trunc ((cast segments : ℝ) * lo / lit 360) = nOut at *
+    have bA : dMin / 2 ≤ (⟨dMin / lit 2, 0, lit 7 / lit 16 * pitch⟩ : Pt3 ℝ).x ∧
+        (⟨dMin / lit 2, 0, lit 7 / lit 16 * pitch⟩ : Pt3 ℝ).x ≤ dMaj / 2 := by simp only [e2]; exact ⟨le_refl _, hab⟩
+    have bB : ∀ z : ℝ, dMin / 2 ≤ (⟨dMaj / lit 2, 0, z⟩ : Pt3 ℝ).x ∧ (⟨dMaj / lit 2, 0, z⟩ : Pt3 ℝ).x ≤ dMaj / 2 := by
+      intro z; simp only [e2]; exact ⟨hab, le_refl _⟩
+    have bC : ∀ z : ℝ, dMin / 2 ≤ (⟨dMin / lit 2, 0, z⟩ : Pt3 ℝ).x ∧ (⟨dMin / lit 2, 0, z⟩ : Pt3 ℝ).x ≤ dMaj / 2 := by
+      intro z; simp only [e2]; exact ⟨le_refl _, hab⟩
+    have hinv : RInv (dMin / 2) (dMaj / 2) st := by
+      rw [← hst]
+      apply foldl_range_inv (fun _ st => RInv (dMin / 2) (dMaj / 2) st)
+      · refine ⟨lerp_x_between _ _ _ _ _ _ (bC _) (bB _) (Or.inr hnIn), lerp_x_between _ _ _ _ _ _ (bC _) (bB _) (Or.inr hnIn),
+          bB _, bB _, ?_⟩
+        intro p hp
+        simp only [List.mem_cons, List.not_mem_nil, or_false] at hp
+        have key : ∀ q : Pt3 ℝ, q.y = 0 → dMin / 2 ≤ q.x → q.x ≤ dMaj / 2 →
+            (dMin / 2) ^ 2 ≤ q.x ^ 2 + q.y ^ 2 ∧ q.x ^ 2 + q.y ^ 2 ≤ (dMaj / 2) ^ 2 := by
+          intro q hy hx1 hx2; rw [hy]; constructor <;> nlinarith
+        have hl1 := lerp_x_between (⟨dMin / lit 2, 0, lit 7 / lit 16 * pitch⟩ : Pt3 ℝ) ⟨dMaj / lit 2, 0, lit 7 / lit 16 * pitch⟩
+          nIn 2 _ _ (bC _) (bB _) (Or.inr hnIn)
+        have hl3 := lerp_x_between (⟨dMin / lit 2, 0, lit 5 / lit 16 * pitch⟩ : Pt3 ℝ) ⟨dMaj / lit 2, 0, lit 5 / lit 16 * pitch⟩
+          nIn 2 _ _ (bC _) (bB _) (Or.inr hnIn)
+        rcases hp with rfl | rfl | rfl | rfl
+        · exact key _ rfl (bC _).1 (bC _).2
+        · exact key _ (lerp_y_zero _ _ _ _ rfl rfl) hl1.1 hl1.2
+        · exact key _ rfl (bC _).1 (bC _).2
+        · exact key _ (lerp_y_zero _ _ _ _ rfl rfl) hl3.1 hl3.2
+      · intro k s hk hi
+        have hcs : ∀ t : ℝ, dcos t * dcos t + dsin t * dsin t = 1 := C10.cs_unit
+        have hin1 := lerp_x_between (⟨dMin / lit 2, 0, lit 7 / lit 16 * pitch⟩ : Pt3 ℝ) ⟨dMaj / lit 2, 0, lit 7 / lit 16 * pitch⟩
+          nIn 2 _ _ (bC _) (bB _) (Or.inr hnIn)
+        have hin3 := lerp_x_between (⟨dMin / lit 2, 0, lit 5 / lit 16 * pitch⟩ : Pt3 ℝ) ⟨dMaj / lit 2, 0, lit 5 / lit 16 * pitch⟩
+          nIn 2 _ _ (bC _) (bB _) (Or.inr hnIn)
+        have hout1 := lerp_x_between (⟨dMin / lit 2, 0, lit 7 / lit 16 * pitch⟩ : Pt3 ℝ) ⟨dMaj / lit 2, 0, lit 7 / lit 16 * pitch⟩
+          nOut 1 _ _ (bC _) (bB _) (by omega)
+        have hout3 := lerp_x_between (⟨dMin / lit 2, 0, lit 5 / lit 16 * pitch⟩ : Pt3 ℝ) ⟨dMaj / lit 2, 0, lit 5 / lit 16 * pitch⟩
+          nOut 1 _ _ (bC _) (bB _) (by omega)
+        split
+        · rename_i hc1
+          have hlt : s.leadInStep < nIn := by
+            simp only [Bool.and_eq_true, decide_eq_true_eq] at hc1; exact hc1.1
+          exact rinv_step _ _ ha s hi _ _ _ (hcs _) _ _ _ _ _ _ _ _ _ _ _ (bC _) hi.1 (bC _) hi.2.1
+            (lerp_x_between _ _ _ _ _ _ hin1 (bB _) (Or.inr (by omega)))
+            (lerp_x_between _ _ _ _ _ _ hin3 (bB _) (Or.inr (by omega))) hi.2.2.1 hi.2.2.2.1
+        · split
+          · exact rinv_step _ _ ha s hi _ _ _ (hcs _) _ _ _ _ _ _ _ _ _ _ _ (bC _) hi.2.2.1 (bC _) hi.2.2.2.1
+              hi.1 hi.2.1
+              (lerp_x_between _ _ _ _ _ _ (bB _) hout1 (Or.inr (by omega)))
+              (lerp_x_between _ _ _ _ _ _ (bB _) hout3 (Or.inr (by omega)))
+          · exact rinv_step _ _ ha s hi _ _ _ (hcs _) _ _ _ _ _ _ _ _ _ _ _ (bC _) (bB _) (bC _) (bB _)
+              hi.1 hi.2.1 hi.2.2.1 hi.2.2.2.1
+    obtain ⟨_, _, _, _, hp⟩ := hinv
+    subst h
+    exact hp
+
 
 end ScadVerif.ThreadLemmas
